@@ -175,10 +175,16 @@ def r15_datafile_order(ctx, rule='R15'):
              'HASH': call_named('hash_handler'),
              'CLOSE': lambda n: isinstance(n, ast.Call) and isinstance(n.func, ast.Attribute) and n.func.attr == 'close',
              'WRITE_OUT': call_named('write_file_to_output'),
-             'UNLINK': ext(ctx, 'os.unlink', 'os.remove')}
+             'UNLINK': ext(ctx, 'os.unlink', 'os.remove'),
+             # the output location is read from the descriptor only after the hash directory was inserted into it
+             'INSERT_HASH': call_named('insert_hash_in_path'),
+             'READ_PATH': lambda n: (isinstance(n, ast.Call) and isinstance(n.func, ast.Attribute) and n.func.attr == 'get'
+                                     and n.args and isinstance(n.args[0], ast.Constant) and n.args[0].value == 'path') or
+             (isinstance(n, ast.Subscript) and isinstance(n.ctx, ast.Load) and isinstance(n.slice, ast.Constant)
+              and n.slice.value == 'path')}
     pes, problems = check_order(
         ctx, rule, rp, preds,
-        not_after=[('HASH', 'CLOSE'), ('TELL', 'CLOSE')],
+        not_after=[('HASH', 'CLOSE'), ('TELL', 'CLOSE'), ('INSERT_HASH', 'READ_PATH')],
         before=[('FINALIZE_FILE', 'TELL'), ('FINALIZE_FILE', 'HASH'), ('FINALIZE_FILE', 'GETSIZE'), ('CLOSE', 'GETSIZE'),
                 ('FINALIZE_FILE', 'WRITE_OUT'), ('CLOSE', 'WRITE_OUT'), ('WRITE_OUT', 'UNLINK')],
         after_loop=[(x, lp) for x in ('FINALIZE_FILE', 'TELL', 'GETSIZE', 'HASH', 'CLOSE', 'WRITE_OUT', 'UNLINK')],
@@ -311,3 +317,58 @@ def checkpoint_chain_cases(ctx):
     if not out:
         raise AnalysisError('checkpoint._preprocess_chain: no path found')
     return pc, out
+
+
+def checkpoint_replaces(ctx, rule='CKP'):
+    """Chain replacement of checkpoint / Flow (shared by C07 and C05)."""
+    from sa.pattern import match_expr as _me
+    run, repo = ctx.run, ctx.repo
+    run.rule(rule, 'CHECKPOINT-REPLACES: when the file exists the chain is the reader alone and does not depend on the preceding '
+                   'links; otherwise it is the preceding links followed by the writer; the parent flow hands the preceding links '
+                   'over and keeps only the checkpoint; the checkpoint absorbs them into a one-shot iterator, so that building '
+                   'the chain again (a second run of the same Flow object) does not add them a second time')
+    ck = repo.cls('dataflows.processors.checkpoint:checkpoint')
+    pc, cases = checkpoint_chain_cases(ctx)
+    yes = [v for pol, a, v, _ in cases if pol is True]
+    no = [v for pol, a, v, _ in cases if pol is False]
+    if any(pol is None for pol, a, v, _ in cases):
+        raise AnalysisError('checkpoint._preprocess_chain: a path does not depend on the exists-test')
+    ok = bool(yes) and all(v is not None and (_me('(unstream(self.filename),)', v) is not None or
+                                               _me('[unstream(self.filename)]', v) is not None) for v in yes)
+    run.check(ok, rule, pc.where, pc.qualname, 'exists: return (unstream(self.filename),)',
+              'with an existing checkpoint the steps before it are still part of the chain (they would run again)')
+    ok = bool(no)
+    for v in no:
+        good = False
+        if isinstance(v, ast.Call) and u(v.func) in ('itertools.chain', 'chain') and len(v.args) == 2 and \
+                pseudo(v.args[0]) == 'self.chain' and isinstance(v.args[1], (ast.Tuple, ast.List)) and v.args[1].elts:
+            good = _me('stream(self.filename)', v.args[1].elts[0]) is not None
+        elif isinstance(v, (ast.List, ast.Tuple)) and len(v.elts) >= 2 and isinstance(v.elts[0], ast.Starred) and \
+                pseudo(v.elts[0].value) == 'self.chain':
+            good = _me('stream(self.filename)', v.elts[1]) is not None
+        ok = ok and good
+    run.check(ok, rule, pc.where, pc.qualname, 'else: return chain(self.chain, (stream(self.filename), notifier))',
+              'on the first run the writer is not placed right after the preceding links')
+    hf = ck.methods['handle_flow_checkpoint']
+    rets = [n for n in own_nodes(hf.node) if isinstance(n, ast.Return)]
+    p = hf.params[1]
+    assigns = [n for n in own_nodes(hf.node) if isinstance(n, ast.Assign) and pseudo(n.targets[0]) == 'self.chain']
+    ok = len(rets) == 1 and _me('[self]', rets[0].value) is not None and len(assigns) == 1 and p in names_in(assigns[0].value) and \
+        any(pseudo(x) == 'self.chain' for x in ast.walk(assigns[0].value))
+    run.check(ok, rule, hf.where, hf.qualname, 'self.chain = chain(self.chain, parent_chain); return [self]',
+              'the links before the checkpoint stay in the parent flow (they run even when the checkpoint exists) or are lost')
+    if ok:
+        # the update reads self.chain itself: it is applied again every time the parent flow builds its chain.  With
+        # itertools.chain the previous value has been exhausted by the run that used it; a list / tuple keeps growing.
+        v = assigns[0].value
+        one_shot = isinstance(v, ast.Call) and ctx.res.external_name(v) in ('itertools.chain',)
+        run.check(one_shot, rule, where(ctx.repo, assigns[0]), hf.qualname, 'self.chain is absorbed into a one-shot iterator',
+                  'the preceding links are appended to a re-iterable container that already holds them: on a second run of the '
+                  'same Flow object (retry after a failure, refresh after deleting the checkpoint) every step before the '
+                  'checkpoint runs twice')
+    fl = repo.cls('dataflows.base.flow:Flow').methods['_preprocess_chain']
+    ok = any(isinstance(n, ast.Assign) and isinstance(n.value, ast.Call) and isinstance(n.value.func, ast.Attribute) and
+             n.value.func.attr == 'handle_flow_checkpoint' and pseudo(n.targets[0]) in [pseudo(a) for a in n.value.args]
+             for n in own_nodes(fl.node))
+    run.check(ok, rule, fl.where, fl.qualname, 'links = link.handle_flow_checkpoint(links)',
+              'Flow does not hand the preceding links to the checkpoint')
